@@ -13,7 +13,7 @@ PLAN = [("x86_64_linux", "C01", 400), ("x86_64_windows", "C01", 200), ("x86_64_m
         ("arm_linux", "C16", 400), ("arm_linux", "C10", 200)]
 OKM = {"x86_64": {"jmp", "jmpq", "movabsq", "movq", "movl", "retq", "nop", "xorl", "xorq", "movb"},
        "aarch64": {"b", "br", "ret", "mov", "movk", "movz", "nop", "adrp", "add", "ldr"},
-       "arm": {"ldr", "ldr.w", "bx", "nop", "mov", "b", "movw", "movt"}}
+       "arm": {"ldr", "ldr.w", "bx", "nop", "mov", "b", "b.w", "movw", "movt"}}
 
 def mc(triple, lines):
     inp = "\n".join(" ".join("0x" + b[i:i + 2] for i in range(0, len(b), 2)) for b in lines) + "\n"
